@@ -112,6 +112,20 @@ def combineChecked (op : Val → Val → Val) (f g : Stairs P) : Except Err (Sta
   pure (combine op f g cl)
 
 def binop (o : BinOp) (f g : Stairs P) : Except Err (Stairs P) := combineChecked o.eval f g
+
+/-- an operand of a binary operator: a step function or a real scalar (`none` = NaN) -/
+inductive Operand (P : Type) | st (f : Stairs P) | sc (c : Val)
+
+/-- `_sanitize_binary_operands`: a scalar becomes a step-free function with the other operand's side -/
+def sanitize : Operand P → Operand P → Option (Stairs P × Stairs P)
+  | .st f, .st g => some (f, g)
+  | .st f, .sc c => some (f, const c f.closed)
+  | .sc c, .st g => some (const c g.closed, g)
+  | .sc _, .sc _ => none
+
+/-- a binary operator applied to operands of either kind (`none`: two scalars – not a Stairs operation) -/
+def binopO (o : BinOp) (a b : Operand P) : Option (Except Err (Stairs P)) :=
+  (sanitize a b).map fun fg => binop o fg.1 fg.2
 def unop (u : UnOp) (f : Stairs P) : Stairs P := map u.eval f
 
 def mask (f g : Stairs P) : Except Err (Stairs P) := combineChecked maskOp f g
